@@ -218,7 +218,7 @@ func RunC13(r *core.Run) {
 	r.Rule = "case = (input, capacity vector (header, contact, URI-param capacity incl. 0 and none), cut schedule); the run is compared with an ample-capacity one-shot run: verdict, offset, all counts (N, HNo), type flags, GetHdr(t) for every t, From/To/Call-ID/CSeq/CLen/Expires values, expires summary, LastHVal, the stored elements [0,min(N,capacity)), GetContact(0) and GetContact(N-1), body/raw message; More()/VNo()/PNo()/HNo() must equal N>capacity / min(N,capacity); non-trivial = the input was accepted and compared; 'overflow' counts cases where N exceeded a capacity (scratch slot path executed); a third of the message cases run on objects that share a pre-history (other message abandoned, then Reset/Init); URI lists are also filled by several consecutive calls"
 	r.Assume = []string{"ample capacity = 64 headers / 64 contacts / 32 URI parameters, larger than any generated message"}
 	ample := Cfg{HdrCap: 64, ContactCap: 64, ParamCap: 32}
-	n := r.Pick(400000, 8000000)
+	n := r.Pick(400000, 16000000)
 	r.Stage("messages", n, func(w *core.Worker, idx int64) {
 		rr := core.NewRand(r.Seed, 0xC13, 1, uint64(idx))
 		m := gen.Msg(rr, gen.MsgOpts{MinHdrs: 1, MaxHdrs: 14, MultiNA: 55,
@@ -292,7 +292,7 @@ func RunC13(r *core.Run) {
 			w.Sample("messages", map[string]any{"parser": p.Name, "input": core.Esc(in), "headers": nh, "contacts": nc})
 		}
 	})
-	r.Stage("contact-lists", r.Pick(200000, 5000000), func(w *core.Worker, idx int64) {
+	r.Stage("contact-lists", r.Pick(200000, 10000000), func(w *core.Worker, idx int64) {
 		rr := core.NewRand(r.Seed, 0xC13, 2, uint64(idx))
 		nv := rr.Range(1, 6)
 		in, _ := gen.NameAddrValue(rr, nv, false, false)
@@ -315,7 +315,7 @@ func RunC13(r *core.Run) {
 			w.Inc("overflow_path_cases")
 		}
 	})
-	r.Stage("uri-param-and-header-lists", r.Pick(300000, 6000000), func(w *core.Worker, idx int64) {
+	r.Stage("uri-param-and-header-lists", r.Pick(300000, 12000000), func(w *core.Worker, idx int64) {
 		rr := core.NewRand(r.Seed, 0xC13, 3, uint64(idx))
 		p := ParserByName([]string{"ParseAllURIParams", "ParseAllURIHdrs"}[rr.Intn(2)])
 		flags := TokFlagSets[rr.Intn(len(TokFlagSets))]
@@ -356,7 +356,7 @@ func RunC13(r *core.Run) {
 	})
 	// lists filled by SEVERAL calls (the wrappers 'add' to the list): k comma/'?' terminated
 	// lists in one buffer, each parsed by its own call into the same list object
-	r.Stage("uri-lists-filled-by-several-calls", r.Pick(80000, 2500000), func(w *core.Worker, idx int64) {
+	r.Stage("uri-lists-filled-by-several-calls", r.Pick(80000, 5000000), func(w *core.Worker, idx int64) {
 		rr := core.NewRand(r.Seed, 0xC13, 4, uint64(idx))
 		hdrs := rr.Bool()
 		flags := sipsp.POptTokCommaTermF
